@@ -40,6 +40,24 @@ CHECKS = {
    design="6 C18"),
 }
 
+CHECKS.update({
+ "C01": dict(
+   text="Lean theorems, for all expression trees, widths, signedness mixes, environments and solver behaviours: the term built by every Expr*Model.build evaluates, under the Boolector semantics Bv.eval, to the reference value of the expression at its computed width (lowerExpr_sound: 16 binary operators with context-width propagation and signed-iff-both-signed extension, ~, part-select, in/rangelist expansion); the formula built for every statement kind (expression, if/else-if/else, implies, unique, scope conjunction with None-skipping, soft) is true exactly when the statement holds in the reference semantics (lowerStmt_sound, via stmt_scope_sound); for any rand set, any soft formulas, any swizzle candidates and any answer stream whose answers are valid for the queries issued, a successful solve reads back values under which every hard statement holds, every random field is inside its declared width/signedness, non-random fields are unchanged (randomize_sound, on top of solve_spec for the hard/soft/swizzle loop); a random enum field reads back a declared enumerator (enum_readback). Tied to the code per call: rand-set membership and order, every hard/soft/enum formula as an s-expression, the Assume/Assert/Sat pattern, every solver answer re-validated under Bv.eval (UNSAT by enumeration on small sets), read-back values; the reference semantics are evaluated on the values the real library returned; kernel sweep of ExprBinModel.build through the real Boolector (three-way: circuit value, Bv.eval of the model's term, reference value).",
+   note=TB + "Modelled, not verified: Boolector (answer stream; validated per answer on every run). Spec choices SC1-SC6 (DESIGN 5). The rand-set builder (RandSets.lean) is executable model + correspondence only: no partition theorem yet. Outside the proved region and generated inputs: statements that mention no field (known finding F17, C02), lists/foreach/dist/dynamic constraints (C04/C15/C06).",
+   technique="Lean 4 proof (structural induction on expressions/statements; invariant over the answer stream) + trace-level differential correspondence + exhaustive kernel sweep",
+   design="6 C01"),
+ "C02": dict(
+   text="Lean theorems: the hard formulas built for a rand set are satisfiable as bit-vector formulas iff the statements have a solution in the reference semantics that keeps non-random fields and stays inside the declared types (hard_sat_iff, both directions from lowering soundness); over any valid answer stream the solve raises SolveFailure iff there is no such solution (fails_iff_unsat, fails_iff_unsat_pre with enum assertions); with valid answers and enough of them the loop never ends in an internal error - the 'failed to add in randomization' raises are unreachable, soft and swizzle phases cannot fail after the hard phase - and a satisfiable system returns a model (no_internal_error); every lowered statement is a well-typed 1-bit term under every assignment, so no Boolector exception can come from node construction inside the well-formedness region (lowered_welltyped). Tied as C01; direct oracle: satisfiability of every enumerable rand set decided exhaustively over the reference semantics by the driver and compared with the outcome in both directions; any exception other than SolveFailure escaping randomize() is reported.",
+   note=TB + "Known findings (recorded, replayed on every run): F17 a statement that mentions no field is dropped; F33 a non-random sub-expression dividing by zero / shifting by a negative amount raises from Python-side evaluation. Repaired during this work: F01, F02, F15, F34, F36, F37 (see known_findings.json).",
+   technique="Lean 4 proof + trace-level differential correspondence + exhaustive satisfiability oracle on small domains",
+   design="6 C02"),
+ "C05": dict(
+   text="Lean theorems over the solve loop with any valid answer stream: soft formulas never turn a satisfiable hard system into SolveFailure (soft_never_fatal); on success the model satisfies the hard formulas and every kept soft formula, and every rejected soft formula is unsatisfiable together with the hard formulas and the kept ones (soft_maximal); the kept/rejected split is exactly the one of the reference greedy procedure that walks the soft list in order and keeps a formula iff it is satisfiable with the hard formulas and the formulas kept before it (soft_exact via GreedyRef, also when the all-at-once attempt succeeds); the highest-priority soft formula wins whenever it is satisfiable with the hard system (first_wins); sorting by the priorities the builder assigns yields the reverse visit order, i.e. later statements and the inline block are tried first (sort_is_reverse); the soft-list entry of a soft constraint under guards means 'guards imply soft' and a plain entry means its expression, both normalised to one bit (soft_guard, soft_plain). Tied as C01 plus: priorities, soft list order, the fallback loop's Assume/Assert pattern and the kept set per rand set; oracle: exact greedy-by-priority reference over the exhaustively enumerated value space of the reference semantics, evaluated on the returned values.",
+   note=TB + "The guard of an else branch is the bitwise complement of the condition (spec choice SC5). Repaired: F02, F18.",
+   technique="Lean 4 proof (greedy invariant over the answer stream) + trace-level differential correspondence + exhaustive greedy reference on small domains",
+   design="6 C05"),
+})
+
 def main():
     checks = []
     for pid in ALL:
